@@ -11,7 +11,12 @@
 (* TLC enumerates or samples the behaviours (Gen_Life) and the harness     *)
 (* h_life replays them on the real library under the allocation ledger;    *)
 (* Trace_Life validates what the library did, step by step, against these  *)
-(* same actions.                                                           *)
+(* same actions.  There is no thread in this state: no object of the API   *)
+(* belongs to the thread that created it (since fix 0f4e6fe not even       *)
+(* through a Lagrange polynomial's processor pointer, see Threads.tla), so *)
+(* the generator assigns each step an executor - the run's thread or a     *)
+(* helper thread that exits right after the step - and Trace_Life accepts  *)
+(* a run only if the observations do not depend on that assignment.        *)
 (***************************************************************************)
 EXTENDS Integers, Sequences, FiniteSets, TLC
 CONSTANTS Budget,             \* API calls before wind-down (afterwards only deletions and the collector's finalize are enabled)
